@@ -126,15 +126,27 @@ def run_job(job, rec):
         scale = 10.0 ** rng.uniform(-6, 6)
         shift_sd = float(rng.choice([0.0, 30.0, 1e3, -1e4, 1e6, -1e6]))
         x = (base + shift_sd * sd0) * scale
+        x_in = x
+        if rng.random() < 0.12:
+            # integer-typed data in a narrow type (counts, ADC values): the same numbers as floats for the harness
+            dt = [np.int8, np.uint8, np.int16, np.uint16, np.int32][int(rng.integers(5))]
+            ii = np.iinfo(dt)
+            span = float(ii.max) - float(ii.min)
+            z = (base - np.median(base)) / max(sd0, 1e-300)
+            v = np.clip(np.rint(float(ii.min) + span * rng.uniform(0.35, 0.65) + z * span * rng.uniform(0.03, 0.07)), float(ii.min), float(ii.max))
+            x_in = v.astype(dt)
+            x = v.astype(float)
+            scale, shift_sd = float(np.std(x) / max(sd0, 1e-300)), float(np.mean(x) / max(np.std(x), 1e-300))
+            rec.count("cases:integer_typed_sample")
         if abs(shift_sd) >= 1e3:
             rec.count("cases:far_from_zero")
         if scale < 1e-3:
             rec.count("cases:small_scale")
         for cls in (GaussianKDE, UnimodalPdf):
             name = cls.__name__
-            ctx = {"case": c, "estimator": name, "kind": kind, "mirrored": mirrored, "n": n, "scale": scale, "shift_in_sd": shift_sd}
+            ctx = {"case": c, "estimator": name, "kind": kind, "mirrored": mirrored, "n": n, "scale": scale, "shift_in_sd": shift_sd, "input_dtype": str(x_in.dtype)}
             rec.context = ctx
-            E = guarded(cls, x)
+            E = guarded(cls, x_in)
             if isinstance(E, Raised):
                 rec.violation("raised", f"{name} construction raised {E!r}", ctx)
                 continue
@@ -217,19 +229,27 @@ def run_job(job, rec):
                 rec.violation("raised", f"evaluating the density at the mode raised {pm!r}", ctx)
                 continue
             deficit = (P.peak - float(pm)) / P.peak
+            bracket_only = False
             if is_kde and deficit > 1e-3 and x.size > 50:
-                # documented search bracket of the KDE mode: the 20% highest-density interval of the
-                # sample.  A correct search can do no worse than the best point of that bracket.
+                # The KDE looks for its mode inside the 20% highest-density interval of the *sample*.  When the reported point is the
+                # best point of that bracket but the density is higher outside it, the failure is the recorded known finding
+                # (mechanism: the bracket excludes the peak - tied / quantised samples, where the shortest window is arbitrary among
+                # many of equal width, and occasionally skewed ones); anything worse than the best point of the bracket is a new violation.
                 from inference.pdf import sample_hdi as _hdi
 
                 blo, bhi = _hdi(np.sort(x), 0.2)
                 inb = (P.grid >= blo) & (P.grid <= bhi)
-                if inb.any():
-                    rec.count("mode_judged_against_search_bracket")
-                    deficit = min(deficit, (float(P.p[inb].max()) - float(pm)) / P.peak)
+                if inb.any() and (float(P.p[inb].max()) - float(pm)) / P.peak <= 1e-3:
+                    rec.count("mode_maximal_only_within_search_bracket")
+                    bracket_only = True
             track(name + ":mode_deficit", max(deficit, 0))
-            rec.check(deficit <= 1e-3, "mode-not-maximal",
-                      lambda: f"{name}: density at the reported mode {E.mode!r} is {float(pm)!r}, but it reaches {P.peak!r} at {P.argmax!r} ({deficit:.2e} lower)", ctx)
+            if bracket_only:
+                rec.violation("kde-mode-search-bracket-excludes-peak",
+                              f"{name}: the reported mode {E.mode!r} is the best point of the search bracket [{blo!r}, {bhi!r}] (20% interval of the sample) but the density is "
+                              f"{deficit:.2e} higher at {P.argmax!r}, outside it", ctx)
+            else:
+                rec.check(deficit <= 1e-3, "mode-not-maximal",
+                          lambda: f"{name}: density at the reported mode {E.mode!r} is {float(pm)!r}, but it reaches {P.peak!r} at {P.argmax!r} ({deficit:.2e} lower)", ctx)
 
             # 4. highest-density intervals
             for f in (float(rng.uniform(0.05, 0.3)), float(rng.uniform(0.3, 0.8)), float(rng.uniform(0.8, 0.99))):
@@ -317,7 +337,24 @@ def run_job(job, rec):
                     rec.check(abs(ll2 - ll1) <= 2e-2, "fit-quality-not-covariant",
                               lambda: f"{name}: mean log-density of the data under the fit is {ll1!r}, under the re-fit of a*s+b it is {ll2!r}", cctx)
                 else:
-                    rec.check(abs(E2.mode - (al * E.mode + be)) <= 2e-3 * sd * al, "mode-not-covariant",
+                    ok_loc = abs(E2.mode - (al * E.mode + be)) <= 2e-3 * sd * al
+                    if not ok_loc:
+                        # a mode that is only the best point of its (sample-derived, tie-broken) search bracket is not covariant either: same known finding
+                        pk2 = float(np.asarray(E2(al * P.grid + be), float).max())
+                        d_a, d_b = (P.peak - float(E(float(E.mode)))) / P.peak, (pk2 - float(E2(float(E2.mode)))) / pk2
+                        from inference.pdf import sample_hdi as _hdi2
+
+                        def at_edge(E_, data):
+                            b0, b1 = _hdi2(np.sort(data), 0.2)
+                            return (b1 - b0) <= 0 or min(abs(E_.mode - b0), abs(E_.mode - b1)) <= 1e-3 * (b1 - b0)
+
+                        edge = x.size > 50 and (at_edge(E, x) or at_edge(E2, al * x + be))
+                        if max(d_a, d_b) > 1e-3 or edge:
+                            rec.violation("kde-mode-search-bracket-excludes-peak",
+                                          f"{name}: mode of a*s+b is {E2.mode!r}, expected {al * E.mode + be!r}: the reported modes lie {d_a:.2e} / {d_b:.2e} below the peaks "
+                                          f"of their densities (each is the best point of its own search bracket only{'; a reported mode sits on the edge of its bracket' if edge else ''})", cctx)
+                            ok_loc = True
+                    rec.check(ok_loc, "mode-not-covariant",
                               lambda: f"{name}: mode of a*s+b is {E2.mode!r}, expected {al * E.mode + be!r}", cctx)
                 track(name + ":cov_interval", max(abs(i2[0] - (al * i1[0] + be)), abs(i2[1] - (al * i1[1] + be))) / (sd * al))
                 rec.check(abs(i2[0] - (al * i1[0] + be)) <= tol_loc * 3 and abs(i2[1] - (al * i1[1] + be)) <= tol_loc * 3, "interval-not-covariant",
